@@ -156,6 +156,10 @@ class Registry:
         return f(eng, st, o) if f else None
 
     def subscript(self, eng, st, cont, key, node):
+        for h in getattr(self, "subscript_hooks", []):
+            r = h(eng, st, cont, key, node)
+            if r is not None:
+                return r
         return None
 
     def method_contract(self, eng, cls: str, name: str, nargs: int = None) -> Optional[Contract]:
